@@ -32,7 +32,7 @@ func init() {
 		Assumptions: []string{
 			"exponent-int spellings that do not denote an integer (1e-3) are a don't-care",
 			"an undefined escape may be rejected or kept verbatim; a defined one is decoded like Go's strconv.Unquote",
-			"names made only of underscores (`_` is a predefined object), a reserved word directly followed by ! or ?, and escapes in ?c char strings are not generated",
+			"names made only of underscores (`_` is a predefined object) and escapes in ?c char strings are not generated",
 		},
 		Run:    run,
 		Replay: replay,
@@ -263,12 +263,6 @@ func gen(thorough bool, emit func(tcase)) {
 		if strings.Trim(name, "_") == "" {
 			return
 		}
-		for _, k := range keywords {
-			// don't-care: a reserved word directly followed by ! or ? reads as the keyword and an operator (`1 if!x`)
-			if name == k+"!" || name == k+"?" {
-				return
-			}
-		}
 		seen[name] = true
 		class := identClass(name)
 		risky := class != "ident/plain"
@@ -307,6 +301,12 @@ func gen(thorough bool, emit func(tcase)) {
 }
 
 func identClass(name string) string {
+	for _, k := range keywords {
+		// a reserved word directly followed by ! or ? matches the documented pattern and is not itself reserved
+		if name == k+"!" || name == k+"?" {
+			return "ident/keyword-then-mark"
+		}
+	}
 	for _, k := range keywords {
 		if strings.HasPrefix(name, k) {
 			return "ident/keyword-prefixed"
